@@ -1329,6 +1329,7 @@ class XMLSchemaBase(XsdValidator, ElementPathMixin[Union[SchemaType, XsdElement]
         except KeyError:
             schema = self
 
+        root_by_name = not path and not schema_path
         if not schema_path:
             schema_path = resource.get_absolute_path(path)
 
@@ -1372,7 +1373,12 @@ class XMLSchemaBase(XsdValidator, ElementPathMixin[Union[SchemaType, XsdElement]
 
                     prev_ancestors = ancestors[:]
 
-            xsd_element = schema.get_element(elem.tag, schema_path, namespaces)
+            if root_by_name and elem is resource.root:
+                # The root matches its global declaration, not the
+                # declaration of a child that has the same name
+                xsd_element = schema.get_element(elem.tag, namespaces=namespaces)
+            else:
+                xsd_element = schema.get_element(elem.tag, schema_path, namespaces)
             if xsd_element is None:
                 if nm.XSI_TYPE in elem.attrib:
                     xsd_element = self.builders.create_element(elem.tag, self)
